@@ -30,6 +30,14 @@ bundle=1, files=[[f0],[f1,f2]], find(bundle=n) inside the call).  (f) compressed
 different directories (layout "gz", see the driver) under forced completion orders in which a later task
 decompresses, reads and finishes while an earlier one is still inside its reader: every content must be the content
 of the task's OWN file (`own` pairs, theorem task_results_independent) and no task may raise.
+
+Extension 3 (Model/C10_args.v, theorem task_arguments_independent): extra arguments in every form the API accepts --
+`args` as a tuple, as a LIST, as None (also empty), `kwargs` as a dict or None -- for map / imap / collect(func=) /
+icollect(func=) under forced completion orders, single files and bundles; the mapped function records exactly what it
+received (number, order and kind of the positional arguments, the keyword arguments).  Coq runs the model's wrappers
+and compares (`args_check`: call_code per task, after_code for the caller's objects; observed_call_agrees_iff): every
+task's function gets (the caller's args in order, then its OWN content / FileInfo) and the kwargs, nothing else, and the
+caller's `args` and `kwargs` hold afterwards what they held before.
 """
 import itertools
 import json
@@ -40,7 +48,7 @@ from lib import core
 from lib.core import zlit, coq_list, coq_bool
 from harness import c10_driver as drv
 
-PREAMBLE = "From Typhon Require Import Model.C10_pool Model.C10_bundle.\n"
+PREAMBLE = "From Typhon Require Import Model.C10_pool Model.C10_bundle Model.C10_args.\n"
 TRUSTED = [
     "correspondence harness tools/props/c10.py + tools/harness/c10_driver.py (case generators, gates that force the "
     "completion order, logging executor subclasses, canonicalisation of values to integers)",
@@ -134,7 +142,50 @@ def random_stream(rng, nfiles):
 
 
 def is_passthrough(case):
+    if case.get("argform"):
+        return False            # collect(func=...) / icollect(func=...): the caller's own function
     return case["api"] in ("icollect", "collect", "align") or bool(case.get("passthrough"))
+
+
+# `args` / `kwargs` in the forms the API accepts: (form of args, values), kwargs as [[key index, value], ...] or None
+ARG_FORMS = [("tuple", [7, 8]), ("list", [7, 8]), ("none", []), ("list", [9]), ("list", []), ("tuple", [])]
+KW_FORMS = [None, [], [[0, 5]], [[0, 5], [1, 6]]]
+
+
+def arg_form_cases(rng, start_id, apis, pool="thread", all_orders_n=3, all_orders_w=2):
+    """Extra arguments for the mapped function in every form the API accepts, on streams of single files and of
+    bundles, for every combination of on_content / pass_info the api has; for `args` given as a LIST additionally every
+    feasible completion order of `all_orders_n` files on 1 .. `all_orders_w` workers, and an unreadable file under
+    error_to_warning (its function must not be called, the others get their own arguments)."""
+    shapes = [("all", 3, [[0], [1], [2]]), ("bundles", 5, [[0, 1], [2], [3, 4]]), ("files", 4, [[2], [0], [3]])]
+    cases, cid = [], start_id
+
+    def add(api, form, vals, oc, pi, select, nfiles, stream, w, order=None, e2w=False, rfail=()):
+        nonlocal cid
+        c = mk_case(cid, api, nfiles, stream, w, select, on_content=oc, pass_info=pi, return_info=(cid % 2 == 0),
+                    e2w=e2w, rfail=rfail, pool=pool)
+        c["on_content"], c["pass_info"] = bool(oc), bool(pi)
+        c["argform"] = {"args": form, "vals": list(vals), "kw": KW_FORMS[cid % len(KW_FORMS)]}
+        c["order"] = order if order is not None else drv.random_order(
+            rng, mode_of(api), forced_count(c), w, style=[None, "latest", "earliest-last"][cid % 3])
+        cases.append(c)
+        cid += 1
+
+    for api in apis:
+        flags = [(True, False), (True, True)] if api in ("collect", "icollect") else [(False, False), (True, False), (True, True)]
+        for form, vals in ARG_FORMS:
+            for oc, pi in flags:
+                for select, nfiles, stream in shapes:
+                    add(api, form, vals, oc, pi, select, nfiles, stream, [1, 2, 3][cid % 3])
+        for oc, pi in flags:
+            n = all_orders_n
+            for w in range(1, all_orders_w + 1):
+                for order in drv.feasible_orders(mode_of(api), n, w):
+                    add(api, "list", [7, 8], oc, pi, "all", n, [[i] for i in range(n)], w, order=order)
+            if oc:
+                add(api, "list", [7, 8], oc, pi, "all", 3, [[0], [1], [2]], 2, e2w=True, rfail=(1,))
+                add(api, "list", [7], oc, pi, "bundles", 4, [[0, 1], [2, 3]], 2, e2w=True, rfail=(1,))
+    return cases
 
 
 def none_and_inner(rng, api, passthrough, on_content, select, stream, rfail, w):
@@ -445,7 +496,35 @@ def maplike_expr(case, obs):
     else:
         bc = "(@nil (option (list Z)), true)"
         codes = "(@nil Z)"
-    return f"(check_trace {w} {rs} {tr}, sched_z {w} {rs} {prio}, cres_z (collect_model {rs}), {bc}, {codes})"
+    return (f"(check_trace {w} {rs} {tr}, sched_z {w} {rs} {prio}, cres_z (collect_model {rs}), {bc}, {codes}, "
+            f"{args_expr(case, obs)})")
+
+
+def zpairs(ps):
+    return coq_list([f"({zlit(a)}, {zlit(b)})" for a, b in ps])
+
+
+def first_call(obs, k):
+    calls = (obs.get("calls") or {}).get(f"p:{k}") or []
+    return calls[0] if calls else None
+
+
+def args_expr(case, obs):
+    """Model/C10_args.v: the model's wrappers against the recorded calls, the caller's objects after the run."""
+    af = case.get("argform")
+    if not af:
+        return "(@nil Z, 0%Z, 0%Z)"
+    n = len(case["sets"]["p"]["stream"])
+    form = {"none": 0, "tuple": 1, "list": 2}[af["args"]]
+    seen = []
+    for k in range(n):
+        call = first_call(obs, k)
+        seen.append("(0, [], [])" if call is None else f"(1, {zpairs(call[0])}, {zpairs(call[1])})")
+    after = obs.get("args_after")
+    kwafter = obs.get("kwargs_after")
+    return (f"(args_check {coq_bool(case['on_content'])} {coq_bool(case['pass_info'])} {form} {core.zlist(af['vals'])} "
+            f"{zpairs(af.get('kw') or [])} {zlit(n)} {core.zlist(case['order'])} {coq_list(seen)} "
+            f"{zpairs(after if after is not None else [])} {zpairs(kwafter if kwafter is not None else [])})")
 
 
 def align_expr(case):
@@ -462,7 +541,8 @@ def describe(case):
             f"on_content={case['on_content']}, return_info={case['return_info']}, error_to_warning={case['e2w']}, "
             f"unreadable={sp['rfail']}, reader returns None for {sp.get('rnone', [])}, func None for {case['fnone']}, "
             f"func raises for {case['fraise']}, pass-through function={bool(case.get('passthrough'))}, "
-            f"forced completion order {case.get('order')}, member orders inside bundles {case.get('inner_order')})")
+            f"forced completion order {case.get('order')}, member orders inside bundles {case.get('inner_order')}"
+            + (f", extra arguments {case['argform']}, pass_info={case['pass_info']}" if case.get("argform") else "") + ")")
 
 
 def judge_maplike(ctx, case, obs, val):
@@ -480,7 +560,7 @@ def judge_maplike(ctx, case, obs, val):
         ctx.fail("correspondence", "Coq evaluation of the model failed", case=case, signature="coq-eval")
         return False
     # Coq prints left-nested pairs flat
-    acc, final, mvals, merr, svals, serr, sched, (ccode, clist), (margs, refines), codes = val
+    acc, final, mvals, merr, svals, serr, sched, (ccode, clist), (margs, refines), codes, argchk = val
     n_acc, n_tr, inflight = acc
     opt = lambda v: None if v is None else v[1]        # noqa: E731
     svals, mvals = [opt(v) for v in svals], [opt(v) for v in mvals]
@@ -573,6 +653,10 @@ def judge_maplike(ctx, case, obs, val):
                  f"content of the files {positions}: every task must get the content of its own file(s) "
                  f"(task_results_independent)", f"{api}-own-content", impl=[k, positions], model=own)
             break
+    # --- extra arguments: every task's function gets (the caller's args in order, its own file arguments) and the kwargs,
+    #     nothing else; the caller's objects are not modified (task_arguments_independent; the verdict is Coq's)
+    if case.get("argform"):
+        judge_args(ctx, case, obs, argchk, fail)
     # --- exactly once
     delivered = len(obs["out"]) if api in ("imap", "icollect") else (n if obs["err"] is None else 0)
     over = {k: v for k, v in obs["func_calls"].items() if v > 1}
@@ -619,6 +703,58 @@ def judge_maplike(ctx, case, obs, val):
             fail("correspondence", f"{api}: the model accepts only the first {n_acc} of {n_tr} recorded events "
                  f"(final={final})", f"{api}-trace-rejected", impl=obs["events"])
     return n >= 2 and len(set(case["order"])) >= 2 and case["order"] != sorted(case["order"])
+
+
+ARG_KIND = {0: "caller's argument", 1: "content of task", 2: "FileInfo of task", 4: "wrongly composed content of task",
+            5: "wrongly composed FileInfo of task", 9: "unknown object"}
+
+
+def show_args(pos):
+    return "(" + ", ".join(f"{ARG_KIND.get(a, a)} {b}" if a != 9 else ARG_KIND[9] for a, b in pos) + ")"
+
+
+def judge_args(ctx, case, obs, argchk, fail):
+    api, sp, af = case["api"], case["sets"]["p"], case["argform"]
+    n = len(sp["stream"])
+    codes, after, kwafter = argchk
+    given = {"none": "args=None", "tuple": f"args=tuple{tuple(af['vals'])}", "list": f"args=LIST {af['vals']}"}[af["args"]]
+    given += f", kwargs={af.get('kw')}"
+    for k in range(n):
+        call = first_call(obs, k)
+        code = codes[k] if k < len(codes) else None
+        pos, kw = drv.expected_call(case, k)
+        py_ok = call is not None and call[0] == pos and call[1] == kw
+        if (code == 0) != py_ok:
+            ctx.fail("correspondence", f"harness: task {k}: Coq's call_code {code} and the harness's own comparison "
+                     f"({call} vs {[pos, kw]}) differ", case=case, signature="harness-call-code")
+        unreadable = case["on_content"] and any(p in sp["rfail"] for p in sp["stream"][k])
+        if call is not None and unreadable:
+            fail("failing-input", f"{api}: the function of task {k} was called {show_args(call[0])} although its file "
+                 f"cannot be read ({given})", f"{api}-arguments", impl=call)
+        elif call is not None and code in (2, 3):
+            fail("failing-input", f"{api}: the function of task {k} was called with {len(call[0])} positional arguments "
+                 f"{show_args(call[0])}; the property requires exactly the caller's arguments in order followed by the "
+                 f"task's own file arguments {show_args(pos)} ({given}; task_arguments_independent)",
+                 f"{api}-arguments", impl=call[0], model=pos)
+        elif call is not None and code == 5:
+            fail("failing-input", f"{api}: the function of task {k} was called with the keyword arguments {call[1]}; the "
+                 f"caller gave {kw} ({given})", f"{api}-arguments", impl=call[1], model=kw)
+        elif call is None and not unreadable and obs["err"] is None:
+            fail("failing-input", f"{api}: the function was never called for task {k} ({given})", f"{api}-arguments",
+                 impl=obs.get("calls"))
+    stray = (obs.get("calls") or {}).get("p:-1")
+    if stray:
+        fail("failing-input", f"{api}: the function was called with arguments that name no task of the stream: "
+             f"{show_args(stray[0][0])} ({given})", f"{api}-arguments", impl=stray)
+    if after != 0:
+        fail("failing-input", f"{api}: the caller's own `args` object was changed by the call ({given}): it now holds "
+             f"{show_args(obs.get('args_after') or [])}" + (" -- it GREW by the file arguments of the tasks" if after == 1 else ""),
+             f"{api}-args-modified", impl=obs.get("args_after"), model=[[0, v] for v in af["vals"]])
+    if kwafter != 0:
+        fail("failing-input", f"{api}: the caller's own `kwargs` dict was changed by the call ({given}): it now holds "
+             f"{obs.get('kwargs_after')}", f"{api}-args-modified", impl=obs.get("kwargs_after"), model=af.get("kw"))
+    if not obs.get("args_type_kept", True):
+        ctx.fail("correspondence", "harness: the args object has not the requested type", case=case, signature="harness-args-type")
 
 
 def judge_align(ctx, case, obs, val):
@@ -842,7 +978,17 @@ def run(ctx):
         gzp = gz_cases(rng, pid, on_proc, 3, 3, 15, pool="process")
         proc_cases += gzp
         pid += len(gzp)
-    ctx.log(f"cases: {n_exh} exhaustive-order, {n_sub} failing-subset, {n_bun} bundle-pattern, {n_sing} one-file-bundle, "
+    # extra arguments (args= as tuple / LIST / None, kwargs=): generated LAST, the random draws of the older families
+    # stay what they were
+    next_id = len(cases) + len(align_cases) + len(proc_cases)
+    argc = arg_form_cases(rng, next_id, ["map", "imap", "collect", "icollect"], all_orders_n=ctx.n(3, 4),
+                          all_orders_w=ctx.n(2, 3))
+    cases += argc
+    n_arg = len(argc)
+    if ctx.thorough:
+        argp = arg_form_cases(rng, next_id + n_arg, ["map", "imap", "icollect"], pool="process")
+        proc_cases += argp
+    ctx.log(f"cases: {n_arg} extra-argument, {n_exh} exhaustive-order, {n_sub} failing-subset, {n_bun} bundle-pattern, {n_sing} one-file-bundle, "
             f"{n_gz} compressed-same-name, {n_rand} sampled, {len(align_cases)} align, "
             f"{len(proc_cases)} process-pool")
     obs = run_thread_cases_parallel(ctx, cases)
@@ -862,6 +1008,9 @@ def run(ctx):
                        "primaries share a secondary (cache in use); distinct by the whole case description")
     allc = cases + proc_cases
     ctx.cov["input_distribution"] = {
+        "extra_argument_cases": n_arg, "extra_argument_cases_on_process_pools": sum(1 for c in proc_cases if c.get("argform")),
+        "extra_arguments_by_form": {f: sum(1 for c in allc if (c.get("argform") or {}).get("args") == f)
+                                    for f in ("tuple", "list", "none")},
         "exhaustive_order_cases": n_exh, "failing_subset_cases": n_sub, "sampled_cases": n_rand,
         "bundle_pattern_cases": n_bun, "one_file_bundle_cases": n_sing, "compressed_same_basename_cases": n_gz,
         "bundles_of_one_file": sum(1 for c in allc if is_bundled(c) for b in c["sets"]["p"]["stream"] if len(b) == 1),
@@ -895,6 +1044,9 @@ def run(ctx):
         "through imap(worker_type='process')",
         "compressed files: the overlap of two reads is forced by gates INSIDE the reader (after FileSet.read() has "
         "decompressed the file): interference that needs two decompressions to interleave byte by byte is not forced",
+        "extra arguments: which of the caller's objects an argument is, is told by a tag carried by the object (on process "
+        "pools the function receives pickled copies); the task a call belongs to is known from a tag the logging "
+        "executor attaches to the wrapper call, not from the arguments",
         "collect() on a selection whose contents are all None raises ValueError in the code as it is; the property does "
         "not fix that outcome and such cases are not judged",
     ]
